@@ -1,3 +1,339 @@
+// runner drives the simulator binary: it fans seeds out to worker processes,
+// collects results, turns crashes into replay files, minimises violations,
+// matches known findings, and writes the evidence file.
+//
+//	runner check <PROP> [--tier quick|thorough] [--bin path]
+//	runner replay <PROP> <file> [--bin path]
+//	runner det [--bin path] [--profiles a,b] [--n 200]
+//
+// exit 0: held on everything explored; 1: VIOLATION line(s) printed; 2: trouble.
 package main
 
-func main() {}
+import (
+	"bufio"
+	"bytes"
+	"encoding/json"
+	"fmt"
+	"os"
+	"os/exec"
+	"path/filepath"
+	"strconv"
+	"strings"
+	"sync"
+)
+
+type Decision struct {
+	K string `json:"k"`
+	A string `json:"a,omitempty"`
+	P string `json:"p,omitempty"`
+}
+
+func (d Decision) String() string {
+	s := d.K
+	if d.A != "" {
+		s += " " + d.A
+	}
+	if d.P != "" {
+		s += " " + d.P
+	}
+	return s
+}
+
+type Injection struct {
+	At int      `json:"at"`
+	D  Decision `json:"d"`
+}
+
+type RunCfg struct {
+	Seed             uint64     `json:"seed"`
+	Prop             string     `json:"prop"`
+	Profile          string     `json:"profile"`
+	Replay           []Decision `json:"decisions,omitempty"`
+	IdentityMapOrder bool       `json:"identityMapOrder,omitempty"`
+	EagerReplay      bool       `json:"eagerReplay,omitempty"`
+	Inject           *Injection `json:"inject,omitempty"`
+}
+
+type Violation struct {
+	Prop   string `json:"prop"`
+	Clause string `json:"clause"`
+	Msg    string `json:"msg"`
+	Step   int    `json:"step"`
+	Shape  string `json:"shape,omitempty"`
+}
+
+func (v Violation) Key() string { return v.Prop + "/" + v.Clause + "/" + v.Shape }
+
+type RunResult struct {
+	Seed       uint64         `json:"seed"`
+	Profile    string         `json:"profile"`
+	Steps      int            `json:"steps"`
+	SimTimeS   float64        `json:"sim_time_s"`
+	Hash       uint64         `json:"hash"`
+	SchedFP    uint64         `json:"sched_fp"`
+	Viols      []Violation    `json:"viols,omitempty"`
+	Stats      map[string]int `json:"stats"`
+	Probes     map[string]int `json:"probes"`
+	Trace      []Decision     `json:"trace,omitempty"`
+	Lines      []string       `json:"lines,omitempty"`
+	Skipped    int            `json:"skipped,omitempty"`
+	NonTrivial bool           `json:"nontrivial"`
+	Panic      string         `json:"panic,omitempty"`
+}
+
+type workItem struct {
+	Cfg RunCfg `json:"cfg"`
+	Tag string `json:"tag,omitempty"`
+}
+
+type workResult struct {
+	Tag string     `json:"tag,omitempty"`
+	Cfg RunCfg     `json:"cfg"`
+	Res *RunResult `json:"res"`
+}
+
+// ReplayFile is what a VIOLATION line points to.
+type ReplayFile struct {
+	Property  string    `json:"property"`
+	Violation Violation `json:"violation"`
+	TreeHash  string    `json:"tree_hash"`
+	Cfg       RunCfg    `json:"cfg"`
+	Hash      uint64    `json:"expected_log_hash"`
+	Crash     string    `json:"crash,omitempty"`
+	Log       []string  `json:"log,omitempty"`
+	Original  int       `json:"original_decisions"`
+}
+
+type KnownFinding struct {
+	Property string `json:"property"`
+	Clause   string `json:"clause"`
+	Shape    string `json:"shape"`
+	What     string `json:"what"`
+	Status   string `json:"status"` // "known" or "fixed"
+	Commit   string `json:"commit,omitempty"`
+}
+
+const verif = "/verif"
+
+var (
+	bin     string
+	workers = 16
+	scratch string
+)
+
+func die(format string, a ...any) {
+	fmt.Fprintf(os.Stderr, "runner: "+format+"\n", a...)
+	os.Exit(2)
+}
+
+func main() {
+	if len(os.Args) < 2 {
+		die("usage: runner check|replay|det ...")
+	}
+	args := os.Args[2:]
+	opts := map[string]string{}
+	var pos []string
+	for i := 0; i < len(args); i++ {
+		if strings.HasPrefix(args[i], "--") {
+			k := args[i][2:]
+			if i+1 < len(args) {
+				opts[k] = args[i+1]
+				i++
+			} else {
+				opts[k] = "1"
+			}
+		} else {
+			pos = append(pos, args[i])
+		}
+	}
+	bin = opts["bin"]
+	if bin == "" {
+		out, err := exec.Command(verif + "/bin/build.sh").Output()
+		if err != nil {
+			die("build failed")
+		}
+		lines := strings.Split(strings.TrimSpace(string(out)), "\n")
+		bin = lines[len(lines)-1]
+	}
+	if w := os.Getenv("VERIF_WORKERS"); w != "" {
+		workers, _ = strconv.Atoi(w)
+	}
+	var err error
+	scratch, err = os.MkdirTemp("", "verif-run.")
+	if err != nil {
+		die("%v", err)
+	}
+	code := 0
+	func() {
+		defer os.RemoveAll(scratch)
+		switch os.Args[1] {
+		case "check":
+			if len(pos) != 1 {
+				die("usage: runner check <PROP>")
+			}
+			tier := opts["tier"]
+			if tier == "" {
+				tier = os.Getenv("VERIF_TIER")
+			}
+			if tier == "" {
+				tier = "quick"
+			}
+			code = check(pos[0], tier, opts)
+		case "replay":
+			if len(pos) != 2 {
+				die("usage: runner replay <PROP> <file>")
+			}
+			code = replay(pos[0], pos[1])
+		case "det":
+			code = determinism(opts)
+		case "show":
+			code = show(opts)
+		case "sweep":
+			code = sweep(pos, opts)
+		default:
+			die("unknown command %s", os.Args[1])
+		}
+	}()
+	os.Exit(code)
+}
+
+func treeHash() string {
+	return filepath.Base(filepath.Dir(bin))
+}
+
+// ---- running workers ---------------------------------------------------------
+
+type workerOut struct {
+	results []workResult
+	crashed bool
+	stderr  string
+	journal string
+}
+
+func runWorker(env []string, id int) workerOut {
+	outp := filepath.Join(scratch, fmt.Sprintf("out.%d.jsonl", id))
+	jp := filepath.Join(scratch, fmt.Sprintf("journal.%d", id))
+	cmd := exec.Command(bin, "-test.run", "^TestSim$", "-test.cpu", "1", "-test.timeout", "6h")
+	cmd.Env = append(os.Environ(), env...)
+	cmd.Env = append(cmd.Env, "SIM_OUT="+outp, "SIM_JOURNAL="+jp, "GOMAXPROCS=2")
+	var eb bytes.Buffer
+	cmd.Stderr = &eb
+	cmd.Stdout = &eb
+	err := cmd.Run()
+	wo := workerOut{}
+	wo.results = readResults(outp)
+	if err != nil {
+		wo.crashed = true
+		wo.stderr = eb.String()
+		if b, e := os.ReadFile(jp); e == nil {
+			wo.journal = string(b)
+		}
+	}
+	os.Remove(outp)
+	os.Remove(jp)
+	return wo
+}
+
+func readResults(path string) []workResult {
+	f, err := os.Open(path)
+	if err != nil {
+		return nil
+	}
+	defer f.Close()
+	var out []workResult
+	sc := bufio.NewScanner(f)
+	sc.Buffer(make([]byte, 1<<20), 1<<28)
+	for sc.Scan() {
+		var r workResult
+		if json.Unmarshal(sc.Bytes(), &r) == nil && r.Res != nil {
+			out = append(out, r)
+		}
+	}
+	return out
+}
+
+var itemSeq int
+var itemMu sync.Mutex
+
+// runItems executes explicit configurations in one worker process.
+func runItems(items []workItem, lines bool) ([]workResult, workerOut) {
+	itemMu.Lock()
+	itemSeq++
+	id := 100000 + itemSeq
+	itemMu.Unlock()
+	inp := filepath.Join(scratch, fmt.Sprintf("in.%d.jsonl", id))
+	var b bytes.Buffer
+	for _, it := range items {
+		j, _ := json.Marshal(it)
+		b.Write(j)
+		b.WriteByte('\n')
+	}
+	os.WriteFile(inp, b.Bytes(), 0o644)
+	defer os.Remove(inp)
+	env := []string{"SIM_MODE=items", "SIM_IN=" + inp, "SIM_KEEP_TRACE=1"}
+	if lines {
+		env = append(env, "SIM_LINES=1")
+	}
+	wo := runWorker(env, id)
+	return wo.results, wo
+}
+
+// journalToCfg rebuilds a replayable configuration from a crashed worker's journal.
+func journalToCfg(j string) (*RunCfg, bool) {
+	lines := strings.Split(strings.TrimSpace(j), "\n")
+	if len(lines) == 0 || lines[0] == "" {
+		return nil, false
+	}
+	var hdr struct {
+		Seed    uint64 `json:"seed"`
+		Prop    string `json:"prop"`
+		Profile string `json:"profile"`
+	}
+	if json.Unmarshal([]byte(lines[0]), &hdr) != nil {
+		return nil, false
+	}
+	cfg := &RunCfg{Seed: hdr.Seed, Prop: hdr.Prop, Profile: hdr.Profile, Replay: []Decision{}}
+	for _, l := range lines[1:] {
+		var d Decision
+		if json.Unmarshal([]byte(l), &d) == nil && d.K != "" {
+			cfg.Replay = append(cfg.Replay, d)
+		}
+	}
+	return cfg, true
+}
+
+func crashSummary(stderr string) string {
+	lines := strings.Split(stderr, "\n")
+	for i, l := range lines {
+		if strings.HasPrefix(l, "panic:") || strings.HasPrefix(l, "fatal error:") {
+			end := i + 12
+			if end > len(lines) {
+				end = len(lines)
+			}
+			return strings.Join(lines[i:end], "\n")
+		}
+	}
+	if len(stderr) > 1500 {
+		return stderr[len(stderr)-1500:]
+	}
+	return stderr
+}
+
+func crashShape(stderr string) string {
+	for _, l := range strings.Split(stderr, "\n") {
+		if strings.HasPrefix(l, "panic:") || strings.HasPrefix(l, "fatal error:") {
+			s := l
+			if len(s) > 80 {
+				s = s[:80]
+			}
+			// strip addresses
+			return strings.Map(func(r rune) rune {
+				if r == ' ' {
+					return '_'
+				}
+				return r
+			}, s)
+		}
+	}
+	return "abnormal-exit"
+}
